@@ -17,20 +17,41 @@ pub struct EdgeSetFrontier {
     pub forbidden: Vec<bool>,
 }
 impl FrontierModel for EdgeSetFrontier {
-    fn valid_frontier(&self, edge: &Edge, _: &[StateVar], _: Option<&Edge>, _: &StateModel) -> Result<bool, FrontierModelError> {
+    fn valid_frontier(
+        &self,
+        edge: &Edge,
+        _: &[StateVar],
+        _: Option<&Edge>,
+        _: &StateModel,
+    ) -> Result<bool, FrontierModelError> {
         Ok(!self.forbidden.get(edge.edge_id.0).copied().unwrap_or(false))
     }
 }
 
-pub fn check_case(w: &World, forbidden: &[bool], algo: &Algo, orient: &Orient, reverse: bool, st: &mut Stats) {
+pub fn check_case(
+    w: &World,
+    forbidden: &[bool],
+    algo: &Algo,
+    orient: &Orient,
+    reverse: bool,
+    st: &mut Stats,
+) {
     st.evaluations += 1;
     st.transitions += 1;
     st.traces += 1;
     let net = &w.net;
-    let si = match w.si_with(Arc::new(EdgeSetFrontier { forbidden: forbidden.to_vec() })) {
+    let si = match w.si_with(Arc::new(EdgeSetFrontier {
+        forbidden: forbidden.to_vec(),
+    })) {
         Ok(si) => si,
         Err(e) => {
-            st.violation("harness", "si_build", 0, || e.clone(), || json!({"world": w}));
+            st.violation(
+                "harness",
+                "si_build",
+                0,
+                || e.clone(),
+                || json!({"world": w}),
+            );
             return;
         }
     };
@@ -50,7 +71,12 @@ pub fn check_case(w: &World, forbidden: &[bool], algo: &Algo, orient: &Orient, r
         Orient::Edge { d: Some(_), .. } => "edge_od",
         Orient::Edge { d: None, .. } => "edge_o",
     };
-    let comp = format!("{}.{}.{}", algo.component(), orient_name, if reverse { "reverse" } else { "forward" });
+    let comp = format!(
+        "{}.{}.{}",
+        algo.component(),
+        orient_name,
+        if reverse { "reverse" } else { "forward" }
+    );
     if let Outcome::Panic(p) = &out {
         st.violation(&comp, "no_panic", size, || p.clone(), case);
         return;
@@ -64,10 +90,27 @@ pub fn check_case(w: &World, forbidden: &[bool], algo: &Algo, orient: &Orient, r
             match &out {
                 Outcome::Ok { routes, .. } => {
                     if !reachable_t {
-                        st.violation(&comp, "unreachable_reports_no_path", size, || format!("destination unreachable but search returned {}", out.text()), case);
+                        st.violation(
+                            &comp,
+                            "unreachable_reports_no_path",
+                            size,
+                            || {
+                                format!(
+                                    "destination unreachable but search returned {}",
+                                    out.text()
+                                )
+                            },
+                            case,
+                        );
                     } else if routes.is_empty() || routes[0].is_empty() {
                         // edge orientation with adjacent edges has a two-edge route; an empty route is never an answer for distinct o/d
-                        st.violation(&comp, "reachable_returns_non_empty_route", size, || format!("destination reachable but route is empty: {}", out.text()), case);
+                        st.violation(
+                            &comp,
+                            "reachable_returns_non_empty_route",
+                            size,
+                            || format!("destination reachable but route is empty: {}", out.text()),
+                            case,
+                        );
                     } else {
                         let ids = route_ids(&routes[0]);
                         let bad = route_structure(net, &ids, orient, reverse);
@@ -76,7 +119,8 @@ pub fn check_case(w: &World, forbidden: &[bool], algo: &Algo, orient: &Orient, r
                             .enumerate()
                             .filter(|(i, e)| {
                                 // origin/destination edges of an edge-oriented query are given, not searched
-                                let given = matches!(orient, Orient::Edge { .. }) && (*i == 0 || *i == ids.len() - 1);
+                                let given = matches!(orient, Orient::Edge { .. })
+                                    && (*i == 0 || *i == ids.len() - 1);
                                 !given && forbidden[**e]
                             })
                             .map(|(_, e)| *e)
@@ -84,7 +128,18 @@ pub fn check_case(w: &World, forbidden: &[bool], algo: &Algo, orient: &Orient, r
                         if bad.is_empty() && forbidden_used.is_empty() {
                             st.pass("reachable_returns_valid_route");
                         } else {
-                            st.violation(&comp, "reachable_returns_valid_route", size, || format!("route {:?}: {:?} forbidden used {:?}", ids, bad, forbidden_used), case);
+                            st.violation(
+                                &comp,
+                                "reachable_returns_valid_route",
+                                size,
+                                || {
+                                    format!(
+                                        "route {:?}: {:?} forbidden used {:?}",
+                                        ids, bad, forbidden_used
+                                    )
+                                },
+                                case,
+                            );
                         }
                     }
                 }
@@ -100,75 +155,106 @@ pub fn check_case(w: &World, forbidden: &[bool], algo: &Algo, orient: &Orient, r
                 }
             }
         }
-        None => match &out {
-            Outcome::Ok { trees, routes, .. } => {
-                if !routes.is_empty() && !matches!(orient, Orient::Edge { .. }) {
-                    st.violation(&comp, "no_destination_no_route", size, || out.text(), case);
-                }
-                if trees.len() != 1 {
-                    st.violation(&comp, "one_tree", size, || format!("{} trees", trees.len()), case);
-                    return;
-                }
-                let tree = &trees[0];
-                let mut keys: Vec<usize> = tree.iter().map(|t| t.vertex).collect();
-                keys.sort();
-                let mut want: Vec<usize> = (0..net.n).filter(|v| reach[*v] && *v != start).collect();
-                if let Orient::Edge { .. } = orient {
-                    // the wrapper adds the origin edge's entry at the head of the origin edge
-                    want.push(start);
-                    want.sort();
-                }
-                if want.len() > 1 {
-                    st.nontrivial += 1;
-                }
-                if keys == want {
-                    st.pass("tree_vertices_are_reachable_set");
-                } else {
-                    st.violation(&comp, "tree_vertices_are_reachable_set", size, || format!("tree vertices {:?}, reachable (other than origin) {:?}", keys, want), case);
-                    return;
-                }
-                // least cost labels: cost summed along the parent chain equals Bellman-Ford over the implementation's own edge costs
-                let cost_of = |e: usize| -> Option<f64> {
-                    if forbidden[e] {
-                        None
+        None => {
+            match &out {
+                Outcome::Ok { trees, routes, .. } => {
+                    if !routes.is_empty() && !matches!(orient, Orient::Edge { .. }) {
+                        st.violation(&comp, "no_destination_no_route", size, || out.text(), case);
+                    }
+                    if trees.len() != 1 {
+                        st.violation(
+                            &comp,
+                            "one_tree",
+                            size,
+                            || format!("{} trees", trees.len()),
+                            case,
+                        );
+                        return;
+                    }
+                    let tree = &trees[0];
+                    let mut keys: Vec<usize> = tree.iter().map(|t| t.vertex).collect();
+                    keys.sort();
+                    let mut want: Vec<usize> =
+                        (0..net.n).filter(|v| reach[*v] && *v != start).collect();
+                    if let Orient::Edge { .. } = orient {
+                        // the wrapper adds the origin edge's entry at the head of the origin edge
+                        want.push(start);
+                        want.sort();
+                    }
+                    if want.len() > 1 {
+                        st.nontrivial += 1;
+                    }
+                    if keys == want {
+                        st.pass("tree_vertices_are_reachable_set");
                     } else {
-                        Some(w.ref_edge_cost(None, e))
+                        st.violation(
+                            &comp,
+                            "tree_vertices_are_reachable_set",
+                            size,
+                            || {
+                                format!(
+                                    "tree vertices {:?}, reachable (other than origin) {:?}",
+                                    keys, want
+                                )
+                            },
+                            case,
+                        );
+                        return;
                     }
-                };
-                let bf = bellman_ford(net, start, !reverse, &cost_of);
-                let map: std::collections::HashMap<usize, &TreeEntry> = tree.iter().map(|t| (t.vertex, t)).collect();
-                for t in tree.iter() {
-                    if t.vertex == start {
-                        continue;
-                    }
-                    let mut v = t.vertex;
-                    let mut sum = 0.0;
-                    let mut steps = 0;
-                    while v != start && steps <= net.n {
-                        match map.get(&v) {
-                            Some(e) => {
-                                sum += e.cost;
-                                v = e.parent;
-                            }
-                            None => break,
+                    // least cost labels: cost summed along the parent chain equals Bellman-Ford over the implementation's own edge costs
+                    let cost_of = |e: usize| -> Option<f64> {
+                        if forbidden[e] {
+                            None
+                        } else {
+                            Some(w.ref_edge_cost(None, e))
                         }
-                        steps += 1;
-                    }
-                    if v == start && close(sum, bf[t.vertex], w.tol()) {
-                        st.pass("tree_labels_are_least_costs");
-                    } else {
-                        st.violation(&comp, "tree_labels_are_least_costs", size, || format!("vertex {}: cost along parents {} (ended at {}), least cost {}", t.vertex, sum, v, bf[t.vertex]), case);
-                        break;
+                    };
+                    let bf = bellman_ford(net, start, !reverse, &cost_of);
+                    let map: std::collections::HashMap<usize, &TreeEntry> =
+                        tree.iter().map(|t| (t.vertex, t)).collect();
+                    for t in tree.iter() {
+                        if t.vertex == start {
+                            continue;
+                        }
+                        let mut v = t.vertex;
+                        let mut sum = 0.0;
+                        let mut steps = 0;
+                        while v != start && steps <= net.n {
+                            match map.get(&v) {
+                                Some(e) => {
+                                    sum += e.cost;
+                                    v = e.parent;
+                                }
+                                None => break,
+                            }
+                            steps += 1;
+                        }
+                        if v == start && close(sum, bf[t.vertex], w.tol()) {
+                            st.pass("tree_labels_are_least_costs");
+                        } else {
+                            st.violation(&comp, "tree_labels_are_least_costs", size, || format!("vertex {}: cost along parents {} (ended at {}), least cost {}", t.vertex, sum, v, bf[t.vertex]), case);
+                            break;
+                        }
                     }
                 }
+                other => st.violation(
+                    &comp,
+                    "no_destination_returns_tree",
+                    size,
+                    || other.text(),
+                    case,
+                ),
             }
-            other => st.violation(&comp, "no_destination_returns_tree", size, || other.text(), case),
-        },
+        }
     }
 }
 
 fn algos(tier: Tier) -> Vec<Algo> {
-    let mut v = vec![Algo::Dijkstra, Algo::AStar(Some(1.0)), Algo::AStar(Some(2.0))];
+    let mut v = vec![
+        Algo::Dijkstra,
+        Algo::AStar(Some(1.0)),
+        Algo::AStar(Some(2.0)),
+    ];
     if tier == Tier::Thorough {
         v.push(Algo::AStar(Some(0.5)));
         v.push(Algo::AStar(None));
@@ -181,7 +267,11 @@ pub fn for_net(net: &Net, tier: Tier, idx: u64, st: &mut Stats) {
     st.states += 1;
     let n = net.n;
     let m = net.m();
-    let w = if idx % 5 == 0 && m > 0 { crate::props::c01::speed_turn_world(net) } else { World::distance(net.clone()) };
+    let w = if idx % 5 == 0 && m > 0 {
+        crate::props::c01::speed_turn_world(net)
+    } else {
+        World::distance(net.clone())
+    };
     // turn delays make costs depend on the previous edge: the label clause needs edge-local costs, so use no access model here
     let w = World { turn: None, ..w };
     // restriction alphabet: none, each single edge, and (thorough) every subset
@@ -206,8 +296,25 @@ pub fn for_net(net: &Net, tier: Tier, idx: u64, st: &mut Stats) {
     for forb in sets.iter() {
         for algo in algos(tier).iter() {
             for reverse in [false, true] {
-                check_case(&w, forb, algo, &Orient::Vertex { o: 0, d: Some(n - 1) }, reverse, st);
-                check_case(&w, forb, algo, &Orient::Vertex { o: 0, d: None }, reverse, st);
+                check_case(
+                    &w,
+                    forb,
+                    algo,
+                    &Orient::Vertex {
+                        o: 0,
+                        d: Some(n - 1),
+                    },
+                    reverse,
+                    st,
+                );
+                check_case(
+                    &w,
+                    forb,
+                    algo,
+                    &Orient::Vertex { o: 0, d: None },
+                    reverse,
+                    st,
+                );
             }
             for o in 0..m {
                 if forb[o] {
@@ -228,20 +335,104 @@ pub fn for_net(net: &Net, tier: Tier, idx: u64, st: &mut Stats) {
 pub fn specs(tier: Tier) -> Vec<GenSpec> {
     match tier {
         Tier::Quick => vec![
-            GenSpec { n: 2, max_edges: 4, max_mult: 2, n_len: 2, self_loops: true, mode: LenMode::Alphabet },
-            GenSpec { n: 3, max_edges: 5, max_mult: 2, n_len: 2, self_loops: true, mode: LenMode::Alphabet },
-            GenSpec { n: 4, max_edges: 5, max_mult: 2, n_len: 1, self_loops: true, mode: LenMode::Alphabet },
-            GenSpec { n: 4, max_edges: 5, max_mult: 1, n_len: 2, self_loops: false, mode: LenMode::Metric },
-            GenSpec { n: 5, max_edges: 5, max_mult: 1, n_len: 1, self_loops: false, mode: LenMode::PowersOfTwo },
+            GenSpec {
+                n: 2,
+                max_edges: 4,
+                max_mult: 2,
+                n_len: 2,
+                self_loops: true,
+                mode: LenMode::Alphabet,
+            },
+            GenSpec {
+                n: 3,
+                max_edges: 5,
+                max_mult: 2,
+                n_len: 2,
+                self_loops: true,
+                mode: LenMode::Alphabet,
+            },
+            GenSpec {
+                n: 4,
+                max_edges: 5,
+                max_mult: 2,
+                n_len: 1,
+                self_loops: true,
+                mode: LenMode::Alphabet,
+            },
+            GenSpec {
+                n: 4,
+                max_edges: 5,
+                max_mult: 1,
+                n_len: 2,
+                self_loops: false,
+                mode: LenMode::Metric,
+            },
+            GenSpec {
+                n: 5,
+                max_edges: 5,
+                max_mult: 1,
+                n_len: 1,
+                self_loops: false,
+                mode: LenMode::PowersOfTwo,
+            },
         ],
         Tier::Thorough => vec![
-            GenSpec { n: 2, max_edges: 5, max_mult: 2, n_len: 2, self_loops: true, mode: LenMode::Alphabet },
-            GenSpec { n: 3, max_edges: 5, max_mult: 2, n_len: 2, self_loops: true, mode: LenMode::Alphabet },
-            GenSpec { n: 3, max_edges: 6, max_mult: 2, n_len: 1, self_loops: true, mode: LenMode::PowersOfTwo },
-            GenSpec { n: 4, max_edges: 5, max_mult: 2, n_len: 1, self_loops: true, mode: LenMode::Alphabet },
-            GenSpec { n: 4, max_edges: 6, max_mult: 1, n_len: 1, self_loops: false, mode: LenMode::Alphabet },
-            GenSpec { n: 4, max_edges: 5, max_mult: 1, n_len: 2, self_loops: false, mode: LenMode::Metric },
-            GenSpec { n: 5, max_edges: 5, max_mult: 1, n_len: 1, self_loops: false, mode: LenMode::PowersOfTwo },
+            GenSpec {
+                n: 2,
+                max_edges: 5,
+                max_mult: 2,
+                n_len: 2,
+                self_loops: true,
+                mode: LenMode::Alphabet,
+            },
+            GenSpec {
+                n: 3,
+                max_edges: 5,
+                max_mult: 2,
+                n_len: 2,
+                self_loops: true,
+                mode: LenMode::Alphabet,
+            },
+            GenSpec {
+                n: 3,
+                max_edges: 6,
+                max_mult: 2,
+                n_len: 1,
+                self_loops: true,
+                mode: LenMode::PowersOfTwo,
+            },
+            GenSpec {
+                n: 4,
+                max_edges: 5,
+                max_mult: 2,
+                n_len: 1,
+                self_loops: true,
+                mode: LenMode::Alphabet,
+            },
+            GenSpec {
+                n: 4,
+                max_edges: 6,
+                max_mult: 1,
+                n_len: 1,
+                self_loops: false,
+                mode: LenMode::Alphabet,
+            },
+            GenSpec {
+                n: 4,
+                max_edges: 5,
+                max_mult: 1,
+                n_len: 2,
+                self_loops: false,
+                mode: LenMode::Metric,
+            },
+            GenSpec {
+                n: 5,
+                max_edges: 5,
+                max_mult: 1,
+                n_len: 1,
+                self_loops: false,
+                mode: LenMode::PowersOfTwo,
+            },
         ],
     }
 }
@@ -271,32 +462,64 @@ pub fn app_layer(scratch: &crate::world::app::Scratch, net: &Net, st: &mut Stats
     // 20 m met
     let row_set = (idx / 7) % 4;
     let (first, last): ((&str, f64, &str), (&str, f64, &str)) = match row_set {
-        0 => (("maximum_height", 4.0, "meters"), ("maximum_total_weight", 5.0, "tons")),
-        1 => (("maximum_trailer_length", 16.0, "meters"), ("maximum_total_weight", 5.0, "tons")),
-        2 => (("maximum_length", 16.0, "meters"), ("maximum_trailer_length", 20.0, "meters")),
-        _ => (("maximum_trailer_length", 14.0, "meters"), ("maximum_length", 20.0, "meters")),
+        0 => (
+            ("maximum_height", 4.0, "meters"),
+            ("maximum_total_weight", 5.0, "tons"),
+        ),
+        1 => (
+            ("maximum_trailer_length", 16.0, "meters"),
+            ("maximum_total_weight", 5.0, "tons"),
+        ),
+        2 => (
+            ("maximum_length", 16.0, "meters"),
+            ("maximum_trailer_length", 20.0, "meters"),
+        ),
+        _ => (
+            ("maximum_trailer_length", 14.0, "meters"),
+            ("maximum_length", 20.0, "meters"),
+        ),
     };
     let e0_closed = row_set != 1;
     spec.vehicle_restrictions = Some(if m > 1 {
-        vec![(e0, first.0.into(), first.1, first.2.into()), ((e0 + 1) % m, "maximum_width".into(), 100.0, "meters".into()), (e0, last.0.into(), last.1, last.2.into())]
+        vec![
+            (e0, first.0.into(), first.1, first.2.into()),
+            ((e0 + 1) % m, "maximum_width".into(), 100.0, "meters".into()),
+            (e0, last.0.into(), last.1, last.2.into()),
+        ]
     } else {
-        vec![(e0, last.0.into(), last.1, last.2.into()), (e0, first.0.into(), first.1, first.2.into())]
+        vec![
+            (e0, last.0.into(), last.1, last.2.into()),
+            (e0, first.0.into(), first.1, first.2.into()),
+        ]
     });
     spec.frontier = json!({"type": "combined", "models": [
         {"type": "road_class", "road_class_input_file": "$DIR/road_classes.txt", "road_class_parser": {"mapping": {"local": 0, "highway": 1}}},
         {"type": "vehicle_restriction", "vehicle_restriction_input_file": "$DIR/vehicle_restrictions.csv"}
     ]});
-    spec.output_plugins = vec![json!({"type": "traversal", "route": "edge_id", "tree": "edge_id", "geometry_input_file": "$DIR/geometries.txt"})];
+    spec.output_plugins = vec![
+        json!({"type": "traversal", "route": "edge_id", "tree": "edge_id", "geometry_input_file": "$DIR/geometries.txt"}),
+    ];
     spec.gzip_graph = (idx / 40) % 2 == 0;
     // the optional sizes of the [graph] section: neither, both, only one of them (networks with fewer edges than vertices are among those enumerated)
-    spec.graph_counts = [(false, false), (true, true), (true, false), (false, true)][(idx / 80) % 4];
+    spec.graph_counts =
+        [(false, false), (true, true), (true, false), (false, true)][(idx / 80) % 4];
     // (the same network can come from two families at the same time: the directory name carries a counter)
     static APP_DIR_COUNTER: std::sync::atomic::AtomicU64 = std::sync::atomic::AtomicU64::new(0);
-    let dir = scratch.path.join(format!("a{}_{}", net.hash_idx(), APP_DIR_COUNTER.fetch_add(1, std::sync::atomic::Ordering::Relaxed)));
+    let dir = scratch.path.join(format!(
+        "a{}_{}",
+        net.hash_idx(),
+        APP_DIR_COUNTER.fetch_add(1, std::sync::atomic::Ordering::Relaxed)
+    ));
     let app = match spec.build(&dir) {
         Ok(a) => a,
         Err(e) => {
-            st.violation("harness", "app_build", 0, || e.clone(), || json!({"net": net}));
+            st.violation(
+                "harness",
+                "app_build",
+                0,
+                || e.clone(),
+                || json!({"net": net}),
+            );
             return;
         }
     };
@@ -304,7 +527,11 @@ pub fn app_layer(scratch: &crate::world::app::Scratch, net: &Net, st: &mut Stats
     let permitted = |e: usize| classes[e] == 0 && (e != e0 || !e0_closed);
     let mut queries: Vec<(Value, usize, Option<usize>)> = vec![];
     for o in 0..n {
-        queries.push((json!({"origin_vertex": o, "road_classes": ["local"], "vehicle_parameters": vp}), o, None));
+        queries.push((
+            json!({"origin_vertex": o, "road_classes": ["local"], "vehicle_parameters": vp}),
+            o,
+            None,
+        ));
         for d in 0..n {
             if o != d {
                 queries.push((json!({"origin_vertex": o, "destination_vertex": d, "road_classes": ["local"], "vehicle_parameters": vp}), o, Some(d)));
@@ -315,12 +542,24 @@ pub fn app_layer(scratch: &crate::world::app::Scratch, net: &Net, st: &mut Stats
     let res = match crate::engine::guarded(|| app.run(batch.clone(), None)) {
         Ok(Ok(r)) => r,
         Ok(Err(e)) => {
-            st.violation("app", "run_returns_responses", net.size(), || e.to_string(), || json!({"net": net, "app_layer": true}));
+            st.violation(
+                "app",
+                "run_returns_responses",
+                net.size(),
+                || e.to_string(),
+                || json!({"net": net, "app_layer": true}),
+            );
             let _ = std::fs::remove_dir_all(&dir);
             return;
         }
         Err(p) => {
-            st.violation("app", "no_panic", net.size(), || p.clone(), || json!({"net": net, "app_layer": true}));
+            st.violation(
+                "app",
+                "no_panic",
+                net.size(),
+                || p.clone(),
+                || json!({"net": net, "app_layer": true}),
+            );
             let _ = std::fs::remove_dir_all(&dir);
             return;
         }
@@ -332,23 +571,48 @@ pub fn app_layer(scratch: &crate::world::app::Scratch, net: &Net, st: &mut Stats
         let r = match res.iter().find(|r| r["request"] == *q) {
             Some(r) => r,
             None => {
-                st.violation("app", "one_response_per_query", net.size(), || format!("no response for {}", q), || json!({"net": net, "app_layer": true, "query": q}));
+                st.violation(
+                    "app",
+                    "one_response_per_query",
+                    net.size(),
+                    || format!("no response for {}", q),
+                    || json!({"net": net, "app_layer": true, "query": q}),
+                );
                 continue;
             }
         };
         let reach = reachable(net, *o, true, &permitted);
         let case = || json!({"net": net, "app_layer": true, "query": q, "road_classes_table": classes, "restricted_edge": e0, "restriction_row_set": row_set});
-        let err = r.get("error").filter(|e| !e.is_null()).map(|e| e.to_string());
+        let err = r
+            .get("error")
+            .filter(|e| !e.is_null())
+            .map(|e| e.to_string());
         match d {
             Some(d) => {
-                let ids: Vec<usize> = r["route"]["path"].as_array().map(|a| a.iter().filter_map(|x| x.as_u64().map(|v| v as usize)).collect()).unwrap_or_default();
+                let ids: Vec<usize> = r["route"]["path"]
+                    .as_array()
+                    .map(|a| {
+                        a.iter()
+                            .filter_map(|x| x.as_u64().map(|v| v as usize))
+                            .collect()
+                    })
+                    .unwrap_or_default();
                 if reach[*d] {
-                    if err.is_none() && !ids.is_empty() && ids.iter().all(|e| *e < m && permitted(*e)) && route_structure(net, &ids, &Orient::Vertex { o: *o, d: Some(*d) }, false).is_empty() {
+                    if err.is_none()
+                        && !ids.is_empty()
+                        && ids.iter().all(|e| *e < m && permitted(*e))
+                        && route_structure(net, &ids, &Orient::Vertex { o: *o, d: Some(*d) }, false)
+                            .is_empty()
+                    {
                         st.pass("app_route_when_reachable");
                     } else {
                         st.violation("app.vertex_od", "only_route_or_no_path", net.size(), || format!("destination reachable over permitted edges but the response is error {:?} route {:?}", err, ids), case);
                     }
-                } else if err.as_ref().map_or(false, |e| e.to_lowercase().contains("no path")) && ids.is_empty() {
+                } else if err
+                    .as_ref()
+                    .map_or(false, |e| e.to_lowercase().contains("no path"))
+                    && ids.is_empty()
+                {
                     st.pass("app_no_path_when_unreachable");
                 } else {
                     st.violation("app.vertex_od", "only_route_or_no_path", net.size(), || format!("destination not reachable over permitted edges but the response is error {:?} route {:?}", err, ids), case);
@@ -356,17 +620,40 @@ pub fn app_layer(scratch: &crate::world::app::Scratch, net: &Net, st: &mut Stats
             }
             None => {
                 // tree rendered as the list of its edge ids: the heads of these edges are exactly the reachable vertices
-                let edges: Vec<usize> = r["tree"].as_array().map(|a| a.iter().filter_map(|x| x.as_u64().map(|v| v as usize)).collect()).unwrap_or_default();
-                let mut got: Vec<usize> = edges.iter().filter(|e| **e < m).map(|e| net.edges[*e].1).collect();
+                let edges: Vec<usize> = r["tree"]
+                    .as_array()
+                    .map(|a| {
+                        a.iter()
+                            .filter_map(|x| x.as_u64().map(|v| v as usize))
+                            .collect()
+                    })
+                    .unwrap_or_default();
+                let mut got: Vec<usize> = edges
+                    .iter()
+                    .filter(|e| **e < m)
+                    .map(|e| net.edges[*e].1)
+                    .collect();
                 got.sort();
                 got.dedup();
                 let want: Vec<usize> = (0..n).filter(|v| *v != *o && reach[*v]).collect();
                 // a cycle back to the origin may add the origin itself
                 let got_wo: Vec<usize> = got.iter().cloned().filter(|v| v != o).collect();
-                if err.is_none() && got_wo == want && edges.iter().all(|e| *e < m && permitted(*e)) {
+                if err.is_none() && got_wo == want && edges.iter().all(|e| *e < m && permitted(*e))
+                {
                     st.pass("app_tree_is_reachable_set");
                 } else {
-                    st.violation("app.vertex_o", "tree_vertices_are_reachable_set", net.size(), || format!("tree edges {:?} reach {:?}, reference {:?}, error {:?}", edges, got_wo, want, err), case);
+                    st.violation(
+                        "app.vertex_o",
+                        "tree_vertices_are_reachable_set",
+                        net.size(),
+                        || {
+                            format!(
+                                "tree edges {:?} reach {:?}, reference {:?}, error {:?}",
+                                edges, got_wo, want, err
+                            )
+                        },
+                        case,
+                    );
                 }
             }
         }
@@ -420,12 +707,21 @@ pub fn replay(case: &Value) -> i32 {
         }
     };
     let reverse = case["reverse"].as_bool().unwrap_or(false);
-    let forbidden: Vec<bool> = serde_json::from_value(case["extra"]["forbidden"].clone()).unwrap_or_else(|_| vec![false; w.net.m()]);
+    let forbidden: Vec<bool> = serde_json::from_value(case["extra"]["forbidden"].clone())
+        .unwrap_or_else(|_| vec![false; w.net.m()]);
     let mut st = Stats::new();
     check_case(&w, &forbidden, &algo, &orient, reverse, &mut st);
     for (k, g) in st.violations.iter() {
         println!("REPLAY-VIOLATION {} {}", k, g.detail);
     }
-    println!("replay: {} violated clauses; outcomes {:?}", st.violations.len(), st.outcomes);
-    if st.violations.is_empty() { 0 } else { 1 }
+    println!(
+        "replay: {} violated clauses; outcomes {:?}",
+        st.violations.len(),
+        st.outcomes
+    );
+    if st.violations.is_empty() {
+        0
+    } else {
+        1
+    }
 }
